@@ -20,7 +20,7 @@ def universes(size):
     big = size in ("large", "xlarge")
     xl = size == "xlarge"
     ints = [-1, 0, 1, 5] + ([2 ** 63, -7] if big else []) + ([3, 2, -(2 ** 63) - 1, True] if xl else [])
-    floats = [-1.0, 0.0, 0.5, 2.5] + ([1e19, -0.29] if big else []) + ([1.0, 0.49, float("inf"), -0.0] if xl else [])
+    floats = [-1.0, 0.0, 0.5, 2.5] + ([1e19, -0.29, float("inf"), 1e308] if big else []) + ([1.0, 0.49, -0.0, float("-inf")] if xl else [])
     U = {}
     U["int"] = {
         "values": [None, 0, 3] + ([True, -1] if big else []),
